@@ -27,10 +27,13 @@ package bus
 //@ ghost busCoinVolume(c Coins, id types.CoinID) int
 //@ ghost busCoinReserve(c Coins, id types.CoinID) int
 //@ ghost busCache() int
+//@ # appChecker(a): the ledger the app module reports to (the checker of the bus it was created on)
+//@ ghost appChecker(a App) Checker
 //@ func iface App.AddTotalSlashed
 //@   requires arg0 != nil
 //@   ensures slashTotal(recv) == old(slashTotal(recv)) + old(arg0.val)
-//@   modifies slashTotal(recv), ledgerDelta, busCache
+//@   ensures reported: ledgerDelta(appChecker(recv), 0) == old(ledgerDelta(appChecker(recv), 0)) + old(arg0.val)
+//@   modifies slashTotal(recv), ledgerDelta(appChecker(recv), 0), busCache
 //@ func iface App.Reward
 //@   ensures result0 != nil && result1 != nil && fresh(result0) && fresh(result1) && 0 <= result0.val && result0.val <= result1.val
 //@   modifies busCache
@@ -63,3 +66,19 @@ package bus
 //@ func iface Candidates.SetOffline
 //@   ensures busOffline(recv, arg0)
 //@   modifies busOffline(recv, arg0), busCache
+
+//@ # ---------------------------------------------------------------- what the payout needs from the other modules (C19)
+//@ # ASSUMED interface summaries: candidate record and stake list are read-only views; AddUpdate (a closure installed by the
+//@ # candidates module) books a pending stake update and touches no ledger (the caller reports the payment itself)
+//@ ghost payoutBooked() int
+//@ func iface Candidates.GetCandidate
+//@   # (state invariant, assumed: a commission is a percentage)
+//@   ensures result != nil ==> fresh(result) && result.Commission <= 100
+//@   modifies busCache
+//@ func iface Candidates.GetStakes
+//@   ensures forall i int :: 0 <= i && i < len(result) ==> result[i] != nil && fresh(result[i]) && result[i].BipValue != nil && fresh(result[i].BipValue) && result[i].BipValue.val >= 0
+//@   modifies busCache
+//@ func field Candidate.AddUpdate
+//@   modifies payoutBooked
+//@ func iface Accounts.IsX3Mining
+//@   modifies nothing
